@@ -23,7 +23,7 @@ int main(int argc, char **argv) {
     while (std::getline(f, line)) {
         ln++;
         if (ln < start) continue;
-        g_current_item = ln;
+        g_current_item = ln; set_crash_context(line);
         alarm(30);
         if (line.compare(0, 5, "READ ") == 0) {
             std::istringstream is(line); std::string tag, path, abs; is >> tag >> path >> abs;
